@@ -474,6 +474,15 @@ pub fn valid_cfg(rng: &mut Rng, world: &World, nm: usize, j: usize, ixlen: usize
 
 fn rand_data(rng: &mut Rng) -> Vec<u8> { let n = match rng.below(9) { 0 => 0, 1 => 32, 2 => 33, 3 => rng.range(250, 300) as usize, 4 => *rng.pick(&[254usize, 255, 256, 257, 287, 288]), 5 => *rng.pick(&[509usize, 510, 511, 512, 520]), _ => rng.below(81) as usize }; rng.bytes(n) }
 
+/// (program id, seed parts) whose canonical bump seed is 222: the 33 candidates with bump seeds 255..=223 all lie on the curve.
+/// Found by brute force (about 2^28..2^30 candidates each); a derivation that gives up early, or counts wrongly, shows here.
+pub fn deep_bump_witnesses() -> Vec<([u8; 32], Vec<Vec<u8>>)> {
+    vec![
+        ([5u8; 32], vec![225_687_307u64.to_le_bytes().to_vec()]),
+        ([7u8; 32], vec![b"vault".to_vec(), 758_525_596u64.to_le_bytes().to_vec()]),
+    ]
+}
+
 pub fn generate_c05(tier: &str, rng: &mut Rng) -> Vec<String> {
     let mut v = vec![];
     let n = if tier == "thorough" { 300_000 } else { 4_000 };
@@ -484,6 +493,24 @@ pub fn generate_c05(tier: &str, rng: &mut Rng) -> Vec<String> {
         let accts: Vec<String> = (0..na).map(|_| { let k = world.key(rng); if rng.chance(1, 5) { format!("{}:~", hex(&k)) } else { format!("{}:{}", hex(&k), hex(&rand_data(rng))) } }).collect();
         let m = rand_cfg(rng, &world, na, ixdata.len());
         v.push(format!("resolve {} {} {} {}", hex(&m), hex(&ixdata), hex(&world.prog), if accts.is_empty() { "-".into() } else { accts.join(",") }));
+    }
+    // PDAs whose canonical bump seed lies deep (found by mining: 33 candidates 255..=223 are on the curve, the bump is 222):
+    // the address is the one `find_program_address` gives however many candidates that takes. The seed bytes arrive as a
+    // literal, as an instruction-data slice and as an account-data slice, under the executing and under an external program.
+    for (prog, parts) in deep_bump_witnesses() {
+        let whole: Vec<u8> = parts.concat();
+        let other = [9u8; 32];
+        let lits = Seed::pack_into_address_config(&parts.iter().map(|p| Seed::Literal { bytes: p.clone() }).collect::<Vec<_>>()).unwrap();
+        let from_ix = Seed::pack_into_address_config(&[Seed::InstructionData { index: 3, length: whole.len() as u8 }]).unwrap();
+        let from_acct = Seed::pack_into_address_config(&[Seed::AccountData { account_index: 0, data_index: 2, length: whole.len() as u8 }]).unwrap();
+        let mut ixd = vec![1u8, 2, 3]; ixd.extend(&whole); ixd.extend([4u8, 5]);
+        let mut ad = vec![8u8, 9]; ad.extend(&whole);
+        let accts = format!("{}:{},{}:~", hex(&other), hex(&ad), hex(&prog));
+        for (disc, exec) in [(1u8, prog), (129u8, other)] {
+            for c in [&lits, &from_ix, &from_acct] {
+                v.push(format!("resolve {} {} {} {}", hex(&cfg_bytes(disc, c, 0, 1)), hex(&ixd), hex(&exec), accts));
+            }
+        }
     }
     // boundary PDA cases: 16 two-byte seeds, 33-byte slices
     let world = World::new(rng);
@@ -529,7 +556,9 @@ fn scenario(rng: &mut Rng) -> Scenario {
     let wide = rng.chance(1, 30);
     let nm = if wide { rng.range(253, 259) as usize } else { rng.below(6) as usize };
     let metas: Vec<(usize, bool, bool)> = (0..nm).map(|_| (rng.below(6) as usize, rng.chance(1, 3), rng.chance(1, 2))).collect();
-    let ixdata = rand_data(rng);
+    // instruction data far beyond what a config can address (configs read bytes 0..=509): 10 KiB is the runtime's CPI limit,
+    // 64 KiB a width boundary; nothing in the library depends on the size, and one scenario in 300 has it
+    let ixdata = if rng.chance(1, 300) { let n = *rng.pick(&[10_240usize, 10_241, 65_535, 65_536, 70_000]); rng.bytes(n) } else { rand_data(rng) };
     let nc = match rng.below(6) { 0 => 0, 1 => 1, _ => rng.range(2, 5) as usize };
     // half of the scenarios: every config resolves (in-range references, incl. to accounts appended by earlier
     // configs); the other half: fixed keys mixed with boundary-heavy random configs
@@ -678,6 +707,20 @@ pub fn generate_c07(tier: &str, rng: &mut Rng) -> Vec<String> {
                 v.push(format!("check {} {} {} {} {}", sc.tag, hex(&stored), hex(&sc.prog), hex(&sc.ixdata), fmt(&m)));
                 let mut m2 = initial.clone(); m2.push((key, false, false, vec![7u8; 40]));
                 v.push(format!("check {} {} {} {} {}", sc.tag, hex(&stored), hex(&sc.prog), hex(&sc.ixdata), fmt(&m2)));
+            }
+        }
+        if v.len() < 40 {
+            // validation of a PDA config whose canonical bump seed lies deep (see `deep_bump_witnesses`): the prescribed account is
+            // accepted, any other key rejected
+            for (prog, parts) in deep_bump_witnesses() {
+                let seeds_cfg = Seed::pack_into_address_config(&parts.iter().map(|p| Seed::Literal { bytes: p.clone() }).collect::<Vec<_>>()).unwrap();
+                let refs: Vec<&[u8]> = parts.iter().map(|p| &p[..]).collect();
+                let pda = Pubkey::find_program_address(&refs, &Pubkey::new_from_array(prog)).0;
+                let stored = stored_for(sc.tag, &[cfg_bytes(1, &seeds_cfg, 0, 1)], 0);
+                for key in [pda, Pubkey::new_from_array(rng.key())] {
+                    let m = vec![(Pubkey::new_from_array(sc.world.keys[0]), false, false, vec![1u8, 2]), (key, false, true, vec![])];
+                    v.push(format!("check {} {} {} {} {}", sc.tag, hex(&stored), hex(&prog), hex(&sc.ixdata), fmt(&m)));
+                }
             }
         }
         if rng.chance(1, 10) {
